@@ -193,7 +193,7 @@ def describe(tr, l, clause):
     return d
 
 
-LAT_D = [0, 1, 59, 60, 89, 90, 179, 180, 359, 360, 719]
+LAT_D = [0, 1, 59, 60, 89, 90, 179, 180, 359, 360, 540, 650, 719]
 LAT_M = [0, 1, 29, 30, 59]
 LAT_S = [0, 1, 30, 59]
 LAT_F = [0, 1, 500000000, 999999999]
@@ -210,7 +210,11 @@ def run(ctx):
     c1, c2, c3 = chains_from_tlc(ctx, 1), chains_from_tlc(ctx, 2), chains_from_tlc(ctx, 3)
     ctx.extra["chains"] = {"len1": len(c1), "len2": len(c2), "len3": len(c3)}
     lattice = [(s, d * 3600 + m * 60 + x, f) for s in (False, True) for d in LAT_D for m in LAT_M for x in LAT_S for f in LAT_F]
-    small = [(s, d * 3600 + m * 60 + x, f) for s in (False, True) for d in LAT_D for m in (0, 59) for x in (0, 59) for f in LAT_F]
+    small = [(s, d * 3600 + m * 60 + x, f) for s in (False, True) for d in LAT_D for m in (0, 6, 59) for x in (0, 59) for f in LAT_F]
+    # from 512 degrees on a double cannot tell 1e-9" steps of an HP value apart (540.0059999999999 and the invalid 540.006
+    # are the same double): there the lattice keeps the fraction classes 0 and 0.5" only (Angles!Lattice)
+    lattice = [pt for pt in lattice if pt[1] < 512 * 3600 or pt[2] in (0, 500000000)]
+    small = [pt for pt in small if pt[1] < 512 * 3600 or pt[2] in (0, 500000000)]
     traces = []
     # every routine (chains of length 1) on the lattice
     for ch in c1:
@@ -282,7 +286,7 @@ def run(ctx):
             ctx.actions[e.get("fn", e["a"])] = ctx.actions.get(e.get("fn", e["a"]), 0) + 1
     ctx.selftest(selftest, lib)
     ctx.rule = ("chains = every path of length 1, 2, 3 through the 67 conversion routines (TLC-enumerated); length-1 chains on "
-                "the %s lattice (11 degree x minute x second x 4 fraction classes x 2 signs) plus float predecessors of "
+                "the %s lattice (13 degree values to 719 x minute x second x 4 fraction classes x 2 signs) plus float predecessors of "
                 "degree/minute boundaries; longer chains on rotating lattice points and random reals in [-720, 720]; HP rejection "
                 "probes; whole-second lattice %s through HPAngle(), hp2dec, hp2dms, hp2ddm, dec2hp, dec2hpa; distinct = distinct "
                 "(routine chain, start angle); the repository tests convert ~20 fixed values"
